@@ -2,6 +2,7 @@
 //! cases and write one line per case (`fn<TAB>args...<TAB>impl-output`) for the Lean driver.
 mod alloc;
 mod common;
+mod c12;
 mod c06;
 mod c20_scn;
 mod c20;
@@ -59,6 +60,7 @@ fn exec(prop: &str, f: &[String]) -> Option<String> {
         "C14" => c14::exec(f),
         "C20" => c20::exec(f),
         "C06" => c06::exec(f),
+        "C12" => c12::exec(f),
         _ => None,
     }
 }
@@ -72,6 +74,11 @@ fn main() {
     if args.len() == 3 && args[1] == "__worker" {
         std::panic::set_hook(Box::new(|_| {}));
         worker::worker_main(&args[2], exec_inproc);
+        return;
+    }
+    if args.len() == 2 && args[1] == "__c12child" {
+        // private sub-command: one child process per batch of async-app scenarios (see c12.rs)
+        c12::child();
         return;
     }
     if args.len() == 2 && args[1] == "__c20child" {
@@ -132,6 +139,7 @@ fn main() {
         "C14" => c14::gen(&mut out, thorough, seed),
         "C20" => c20::gen(&mut out, thorough, seed),
         "C06" => c06::gen(&mut out, thorough, seed),
+        "C12" => c12::gen(&mut out, thorough, seed),
         other => {
             eprintln!("unknown property {}", other);
             std::process::exit(2);
